@@ -2,12 +2,15 @@ package main
 
 import (
 	"bytes"
+	"encoding/hex"
 	"encoding/json"
 	"fmt"
+	xsd "git.sr.ht/~mariusor/go-xsd-duration"
 	"io"
 	"math"
 	"reflect"
 	"regexp"
+	"sort"
 	"strings"
 	"time"
 	"unicode/utf8"
@@ -553,6 +556,7 @@ func init() {
 				tr := T{"t": "Object", "ptr": true, "f": T{"Type": T{"s": "Note"}, fld: T{"nlv": l}}}
 				c.Count(tr, true)
 				c.Tag("repeated-language")
+				c02Bytes(c, tr)
 				if _, viol := c02Check(tr); viol != "" {
 					c.Fail("C02/duplicate", viol, map[string]interface{}{"v": tr})
 				}
@@ -591,6 +595,7 @@ func init() {
 					tr := cloneTree(holder).(T)
 					c.Count(tr, true)
 					c.Tag("silent-list-member")
+					c02Bytes(c, tr)
 					if _, viol := c02Check(tr); viol != "" {
 						c.Fail("C02/invalid", viol, map[string]interface{}{"v": tr})
 					}
@@ -603,6 +608,7 @@ func init() {
 			tr := c02Substitute(c.R, x).(T)
 			c.Count(tr, true)
 			c.Tag(tag)
+			c02Bytes(c, tr)
 			if _, viol := c02Check(tr); viol != "" {
 				cls := "C02/document"
 				if strings.Contains(viol, "repeated in one object") {
@@ -639,6 +645,102 @@ func init() {
 		_, viol := c02Check(parseTree(in["v"]).(T))
 		return viol
 	}
+}
+
+// c02Leaves: the texts of the instants and durations of a value tree, as time.Format and xsd.Marshal write
+// them (not the library's code: given to the byte-level model as they are)
+func c02Leaves(x interface{}, times, durs map[int64]string) {
+	switch v := x.(type) {
+	case T:
+		if t, ok := v["time"]; ok {
+			if l := asList(t); len(l) == 3 {
+				s := int64(num(l[0]))
+				times[s] = time.Unix(s, 0).UTC().Format(time.RFC3339)
+			}
+		}
+		if d, ok := v["dur"]; ok {
+			ns := int64(num(d))
+			if b, err := xsd.Marshal(time.Duration(ns)); err == nil {
+				durs[ns] = string(b)
+			}
+		}
+		for _, y := range v {
+			c02Leaves(y, times, durs)
+		}
+	case []interface{}:
+		for _, y := range v {
+			c02Leaves(y, times, durs)
+		}
+	}
+}
+
+func c02PemDiffers(x interface{}) bool {
+	switch v := x.(type) {
+	case T:
+		if p, ok := v["PublicKeyPem"].(T); ok {
+			if str, ok := p["s"].(string); ok {
+				std, _ := json.Marshal(str)
+				if string(std) != string(c02LibString(str)) {
+					return true
+				}
+			}
+		}
+		for _, y := range v {
+			if c02PemDiffers(y) {
+				return true
+			}
+		}
+	case []interface{}:
+		for _, y := range v {
+			if c02PemDiffers(y) {
+				return true
+			}
+		}
+	}
+	return false
+}
+
+// the library's string writer, reached through a type that uses it
+func c02LibString(s string) []byte {
+	b, _ := ap.IRI(s).MarshalJSON()
+	return b
+}
+
+// c02Bytes: the bytes the type's own MarshalJSON writes, against the byte-level model (commas, braces, the
+// notEmpty flag, statement order, escaping — byte for byte)
+func c02Bytes(c *Ctx, tr T) {
+	it := buildItem(tr)
+	m, ok := it.(json.Marshaler)
+	if !ok || ap.IsNil(it) {
+		return
+	}
+	var out []byte
+	var err error
+	if p, _ := guard(func() { out, err = m.MarshalJSON() }); p || err != nil {
+		return // judged by c02Check
+	}
+	// the key material is the one string written by encoding/json instead of the library's string writer:
+	// where the two write a string differently (<, >, &, U+2028/9, invalid UTF-8) the model has no say
+	if c02PemDiffers(tr) {
+		c.Tag("bytes/skipped-pem-written-by-encoding-json")
+		return
+	}
+	times, durs := map[int64]string{}, map[int64]string{}
+	c02Leaves(tr, times, durs)
+	pairs := func(m map[int64]string) []interface{} {
+		keys := make([]int64, 0, len(m))
+		for k := range m {
+			keys = append(keys, k)
+		}
+		sort.Slice(keys, func(i, j int) bool { return keys[i] < keys[j] })
+		out := []interface{}{}
+		for _, k := range keys {
+			out = append(out, []interface{}{k, m[k]})
+		}
+		return out
+	}
+	c.Emit(map[string]interface{}{"op": "jsonBytes", "v": tr, "times": pairs(times), "durs": pairs(durs)}, hex.EncodeToString(out), true)
+	c.Tag("bytes")
 }
 
 // c02Substitute: hostile strings into string positions of a generated tree
